@@ -2,6 +2,7 @@
    printed by harness/h_random.cpp. -/
 import Driver.Common
 import GivaroModel.Model.Random
+import GivaroModel.Model.RandomDest
 import GivaroModel.Spec.RandomSpec
 -- @driver-mode random Driver.Random.randomLine
 namespace Driver.Random
@@ -41,35 +42,54 @@ def verdict (specOk modelOk : Bool) (model : String) (line : String) : String :=
 
 def showL (l : List Int) : String := String.intercalate " " (l.map hexInt)
 
-def splitT (res : List String) : List String × List String :=
-  (res.takeWhile (· != "T"), (res.dropWhile (· != "T")).drop 1)
+/-- result tokens: `values [T trace] [U second [U third]]` -/
+def splitT (res : List String) : List String × List String × List String × List String :=
+  let vals := res.takeWhile (fun t => t != "T" && t != "U")
+  let rest := res.dropWhile (fun t => t != "T" && t != "U")
+  let tr := if rest.head? == some "T" then (rest.drop 1).takeWhile (· != "U") else []
+  let afterT := if rest.head? == some "T" then (rest.drop 1).dropWhile (· != "U") else rest
+  let u1 := (afterT.drop 1).takeWhile (· != "U")
+  let u2 := ((afterT.drop 1).dropWhile (· != "U")).drop 1
+  (vals, tr, u1, u2)
 
 /-- finished replay: value and whether the whole recorded trace was consumed in the recorded order -/
 def fin (d : Int × TrSt) : Option Int := if d.2.ok && d.2.rest.isEmpty then some d.1 else none
 def finO (d : Option (Int × TrSt)) : Option Int := d.bind fin
 
-/-- Integer::random* cases: returns (precondition, specOk, model result) -/
+def isKey (key : String) (ks : List String) : Bool := ks.contains key
+
+/-- Integer::random* cases: returns (precondition, specOk, model result).  `old` is what the destination held. -/
 def intCase (key : String) (a : List Int) (r : Int) (t : List (Int × Int × Int)) : Option (Bool × Bool × Option Int) :=
   let st : TrSt := ⟨t, true⟩
   let fuel := t.length + 1
   match a with
-  | [_, _, x, y] =>
-    let ap := x != 0
+  | [_, _, x, y, old] =>
+    let apx := x != 0
     let n := y.toNat
-    if key == "lt" || key == "rndI" then some (decide (1 ≤ y), ltOk ap y r, fin (lessthan trGen ap y st))
-    else if key == "lt0" then some (decide (1 ≤ y), ltOk true y r, fin (lessthan trGen true y st))
-    else if key == "lt2" || key == "ltw" || key == "ltv" || key == "rndW" then
-      some (decide (0 ≤ y), ltOk ap (2 ^ n) r, fin (lessthan2exp trGen ap n st))
-    else if key == "ex2" || key == "exT" || key == "exV" then
-      some (decide (1 ≤ y), exactOk ap n r, fin (exact2exp trGen ap n 0 st))
-    else if key == "exI" then some (true, exactOk ap (bitsize y) r, fin (exactI trGen ap y 0 st))
-    else if key == "btw" || key == "btwv" then some (decide (x < y), betweenOk x y r, fin (between trGen x y st))
-    else if key == "btw2" || key == "btwT" || key == "btwU" then
-      some (decide (0 ≤ x ∧ x < y), betweenOk (2 ^ x.toNat) (2 ^ n) r, finO (between2exp trGen x.toNat n fuel st))
-    else if key == "nz" || key == "nzv" then some (decide (1 ≤ y), nonzeroOk ap (2 ^ n) r, finO (nonzeroW trGen ap n fuel st))
-    else if key == "nzI" then some (decide (2 ≤ y), nonzeroOk ap y r, finO (nonzeroI trGen ap y fuel st))
-    else if key == "rnd0" then some (true, ltOk ap (2 ^ 64) r, fin (random0 trGen ap st))
-    else if key == "nz0" then some (true, nonzeroOk true (2 ^ 64) r, finO (nonzeroW trGen true 64 fuel st))
+    -- overloads without the ALWAYSPOSITIVE template argument are the `<true>` forms; value-returning ones draw into a fresh Integer
+    let forcedTrue := isKey key ["lt0", "rndIT", "lt20", "ltw0", "ltvT", "ex20", "exI0", "nzT", "rnd0t", "nz0"]
+    let ap := forcedTrue || apx
+    let valueRet := isKey key ["ltv", "ltv0", "ltvT", "exV", "exVI", "btwv", "btw2v", "btwTv", "btwU", "nzv", "nzIv", "rndIv", "rndWv", "rnd0", "rnd0t", "nz0", "rbool"]
+    let o : Int := if valueRet then 0 else old
+    if isKey key ["lt", "rndI", "lt0", "rndIT", "rndIv"] then some (decide (1 ≤ y), ltOk ap y r, fin (lessthanD trGen ap y o st))
+    else if isKey key ["lt2", "ltw", "ltv", "rndW", "ltv0", "rndWv", "lt20", "ltw0", "ltvT"] then
+      some (decide (0 ≤ y), ltOk ap (2 ^ n) r, fin (lessthan2expD trGen ap n o st))
+    else if isKey key ["ex2", "exT", "exV", "exw", "ex20"] then
+      some (decide (1 ≤ y), exactOk ap n r, fin (exact2expD trGen ap n o st))
+    else if isKey key ["exI", "exVI", "exI0"] then some (true, exactOk ap (bitsize y) r, fin (exactID trGen ap y o st))
+    else if isKey key ["btw", "btwv"] then some (decide (x < y), betweenOk x y r, fin (betweenD trGen x y o st))
+    else if isKey key ["btw2", "btwT", "btwU", "btw2v", "btwW", "btwTv"] then
+      some (decide (0 ≤ x ∧ x < y), betweenOk (2 ^ x.toNat) (2 ^ n) r, finO (between2expD trGen x.toNat n fuel o st))
+    else if isKey key ["nz", "nzv", "nzT"] then some (decide (1 ≤ y), nonzeroOk ap (2 ^ n) r, finO (nonzeroWD trGen ap n fuel o st))
+    else if isKey key ["nzI", "nzIv"] then some (decide (2 ≤ y), nonzeroOk ap y r, finO (nonzeroID trGen ap y fuel o st))
+    else if key == "zrW" then       -- ZRing<Integer>::random(g, r, long s) / nonzerorandom(g, r, long s)
+      (if apx then some (decide (0 ≤ y), ltOk true (2 ^ n) r, fin (lessthan2expD trGen true n o st))
+       else some (decide (1 ≤ y), nonzeroOk true (2 ^ n) r, finO (nonzeroWD trGen true n fuel o st)))
+    else if key == "zrI" then       -- ZRing<Integer>::random(g, r, const Rep& b) / nonzerorandom(g, r, const Rep& b)
+      (if apx then some (decide (1 ≤ y), ltOk true y r, fin (lessthanD trGen true y o st))
+       else some (decide (2 ≤ y), nonzeroOk true y r, finO (nonzeroID trGen true y fuel o st)))
+    else if isKey key ["rnd0", "rnd0t"] then some (true, ltOk ap (2 ^ 64) r, fin (random0 trGen ap st))
+    else if key == "nz0" then some (true, nonzeroOk true (2 ^ 64) r, finO (nonzeroWD trGen true 64 fuel 0 st))
     else if key == "rbool" then
       some (true, r == 0 || r == 1, fin (((if (randBool trGen st).1 then 1 else 0), (randBool trGen st).2)))
     else none
@@ -84,6 +104,12 @@ def modSty (t : Int) : Option (Nat × Bool) :=
 
 def loopFuel : Nat := 4096
 
+/-- the harness pre-fills the destinations of the first sequence with the all-ones / -1 pattern of the element type -/
+def junkOf (t : Int) : Int :=
+  match modSty t with
+  | some (bits, sgn) => if sgn then -1 else 2 ^ bits - 1
+  | none => if t == 0x1a || t == 0x1b then 2 ^ 128 - 1 else -1
+
 def ringCase (a : List Int) (res : List Int) (line : String) : String :=
   match a, res with
   | [t, p, k, seed, fn, size, n], eq :: es =>
@@ -91,38 +117,64 @@ def ringCase (a : List Int) (res : List Int) (line : String) : String :=
     let q : Int := if t == 0x20 || t == 0x21 then p ^ k.toNat else p
     let canon : Int → Bool := if 0x12 ≤ t && t ≤ 0x15 then canonicalBal q else canonical q
     let nz := fn == 3 || fn == 5 || fn == 7
+    -- eq: the sequence drawn into pre-filled destinations equals the one drawn into zeroed destinations by an iterator that is
+    -- replaced by a copy of itself half-way (destination independence, reproducibility from the seed, copy semantics)
     let specOk := eq == 1 && decide (es.length = n.toNat) && es.all canon && (!nz || es.all (· != 0))
+    let olds := List.replicate n.toNat (junkOf t)
     let model : Option (Option (List Int)) :=
       match modSty t with
-      | some (bits, sgn) => some (modSeq bits sgn p fn.toNat size loopFuel n.toNat (givInit seed))
+      | some (bits, sgn) => some ((modRun bits sgn p fn.toNat size loopFuel olds (givInit seed)).map (·.1))
       | none =>
-        if t == 0x20 then some (gfqSeq 32 q fn.toNat size loopFuel n.toNat (givInit seed))
-        else if t == 0x21 then some (gfqSeq 64 q fn.toNat size loopFuel n.toNat (givInit seed))
-        else if t == 0x1a || t == 0x1b then some (ruRingSeq 7 p fn.toNat loopFuel n.toNat (givInit seed))
+        if t == 0x20 then some ((gfqRun 32 q fn.toNat size loopFuel olds (givInit seed)).map (·.1))
+        else if t == 0x21 then some ((gfqRun 64 q fn.toNat size loopFuel olds (givInit seed)).map (·.1))
+        else if t == 0x1a || t == 0x1b then some ((ruRingRun 7 p fn.toNat loopFuel olds (givInit seed)).map (·.1))
         else none
     match model with
     | none => verdict specOk true "speconly" line                 -- ring type whose `init` is not modelled here: implementation vs specification
     | some m => verdict specOk (m == some es) (match m with | some l => showL l | none => "LOOP") line
   | _, _ => "BAD ring | " ++ line
 
-def polyCase (a : List Int) (res : List Int) (line : String) : String :=
-  match a, res with
-  | [t, p, k, seed, kind, arg], sz :: cs =>
+/-- `size c_0 … c_{size-1}` -/
+def polyOf (l : List Int) : Option (List Int) :=
+  match l with
+  | sz :: cs => if decide (sz = cs.length) then some cs else none
+  | [] => none
+
+def polyCase (a : List Int) (r0 r1 r2 : List Int) (line : String) : String :=
+  match a, polyOf r0, polyOf r1, polyOf r2 with
+  | [t, p, k, seed, kind, arg], some cs, some cs1, some cs2 =>
     let d : Int := if kind % 4 == 0 then arg else if kind % 4 == 2 then 0 else arg - 1
     -- a non-zero polynomial of size 0 does not exist: `nonzerorandom` of size 0 is outside the property
     if seed == 0 || (d < 0 && kind ≥ 4) then "PRE" else
     let q : Int := if t == 0x20 then p ^ k.toNat else p
-    let specOk := decide (sz = cs.length) && polyDegOk q d cs
+    -- the three draws (destination held a longer polynomial / nothing / a shorter non-canonical one) must be the same polynomial
+    let specOk := polyDegOk q d cs && cs1 == cs && cs2 == cs
     if t == 5 then
-      let m := (polyRandomDeg 32 true p d loopFuel (givInit seed)).map (·.1)
+      let old : List Int := List.replicate ((if arg > 0 then arg.toNat else 0) + 9) 1
+      let m := (polyRandomD 32 true p d loopFuel old (givInit seed)).map (·.1)
       verdict specOk (m == some cs) (match m with | some l => showL l | none => "LOOP") line
     else verdict specOk true "speconly" line
-  | _, _ => "BAD poly | " ++ line
+  | _, _, _, _ => "BAD poly | " ++ line
 
-/-- successive `rand` values from the word stream -/
-def ruSeq (f : List Int → Int × List Int) : Nat → List Int → List Int × List Int
+/-- successive `rand` values from the word stream, every destination holding `old` -/
+def ruSeq (f : Int → List Int → Int × List Int) (old : Int) : Nat → List Int → List Int × List Int
   | 0, ws => ([], ws)
-  | n+1, ws => let d := f ws; let r := ruSeq f n d.2; (d.1 :: r.1, r.2)
+  | n+1, ws => let d := f old ws; let r := ruSeq f old n d.2; (d.1 :: r.1, r.2)
+
+/-- conversion `(XXX)` of a GivRandom draw for the destination types cycled by `givx` -/
+def givxModel (i : Nat) (g : Int) : Int × Int :=
+  match i % 7 with
+  | 0 => givDrawInto wrapU64 18446744073709551615 g
+  | 1 => givDrawInto wrapU32 4294967295 g
+  | 2 => givDrawInto wrapS32 (-1) g
+  | 3 => givDrawInto wrapS64 (-1) g
+  | 4 => givDrawInto id (-1) g
+  | 5 => givDrawInto id (-(2 ^ 300 + 7)) g
+  | _ => ((if (givBrand g).1 then 1 else 0), (givBrand g).2)
+
+def givxSeq : Nat → Nat → Int → List Int
+  | 0, _, _ => []
+  | n+1, i, g => (givxModel i g).1 :: givxSeq n (i + 1) (givxModel i g).2
 
 def randomLine (line : String) : String :=
   match splitLine line with
@@ -132,9 +184,9 @@ def randomLine (line : String) : String :=
     | none => "BAD args | " ++ line
     | some a =>
       if res == ["UNSUPPORTED"] then "PRE" else
-      let (vals, tr) := splitT res
-      match parseAll vals, parseAll tr with
-      | some v, some trI =>
+      let (vals, tr, us1, us2) := splitT res
+      match parseAll vals, parseAll tr, parseAll us1, parseAll us2 with
+      | some v, some trI, some u1, some u2 =>
         if key == "giv" then
           match a with
           | [seed, n] =>
@@ -142,8 +194,18 @@ def randomLine (line : String) : String :=
             let h1 := v.take n.toNat
             let h2 := v.drop n.toNat
             let m := givDraws n.toNat (givInit seed)
-            verdict (decide (v.length = 2 * n.toNat) && h1 == h2 && h1.all givOk) (m == h1) (showL m) line
+            verdict (decide (v.length = 2 * n.toNat) && h1 == h2 && h1.all givOk) (m == h1 && givCtor seed [] == some (givInit seed)) (showL m) line
           | _ => "BAD giv | " ++ line
+        else if key == "givx" then
+          match a with
+          | [seed, n] =>
+            if seed == 0 then "PRE" else
+            let m := givxSeq n.toNat 0 (givInit seed)
+            -- specification: x_i is the plain draw d_i converted to the destination's type (for i % 7 = 6: brand() = bit 30 clear)
+            let expect := (List.range n.toNat).zip v |>.map (fun (i, d) => if i % 7 == 6 then (if (d / 1073741824) % 2 == 0 then 1 else 0)
+                              else if i % 7 == 1 then wrapU32 d else if i % 7 == 2 then wrapS32 d else d)
+            verdict (decide (v.length = n.toNat) && v.all givOk && u1 == expect) (m == u1) (showL m) line
+          | _ => "BAD givx | " ++ line
         else if key == "givlong" then
           match a, v with
           | [seed, n], [last, sum, mx, mn, eq] =>
@@ -155,23 +217,25 @@ def randomLine (line : String) : String :=
           match a with
           | seed :: _ => if seed == 0 && key != "rurep" && key != "seedrep" then "PRE" else verdict (v == [1]) true "1" line
           | _ => "BAD | " ++ line
-        else if key == "ring" then ringCase a v line
-        else if key == "poly" then polyCase a v line
-        else if key == "ru" then
+        else if key == "ring" then ringCase a (v ++ []) line
+        else if key == "poly" then polyCase a v u1 u2 line
+        else if key == "ru" || key == "ri" then
           match a with
           | [k, _, n] =>
             let K := k.toNat
-            let m := ruSeq (ruRand K) n.toNat trI
+            let signed := key == "ri"
+            let m := ruSeq (if signed then riRandD K else ruRandD K) (if signed then -1 else 2 ^ (2 ^ K) - 1) n.toNat trI
             if !(trI.all (fun w => decide (0 ≤ w ∧ w < 18446744073709551616))) then "BAD contract | " ++ line else
-            verdict (decide (v.length = n.toNat) && v.all (fun x => decide (0 ≤ x ∧ x < 2 ^ (2 ^ K)))) (m.1 == v && m.2.isEmpty) (showL m.1) line
+            let inRange : Int → Bool := fun x => if signed then decide (-(2 ^ (2 ^ K - 1)) ≤ x ∧ x < 2 ^ (2 ^ K - 1)) else decide (0 ≤ x ∧ x < 2 ^ (2 ^ K))
+            verdict (decide (v.length = n.toNat) && v.all inRange && u1 == v) (m.1 == v && m.2.isEmpty) (showL m.1) line
           | _ => "BAD ru | " ++ line
         else if key == "rm" then
           match a with
           | [k, mg, p, _, n] =>
             let K := k.toNat
-            let m := ruSeq (if mg == 0 then rmRand K p else rmRandMg K p) n.toNat trI
+            let m := ruSeq (if mg == 0 then rmRandD K p else rmRandMgD K p) (2 ^ (2 ^ K) - 1) n.toNat trI
             if !(trI.all (fun w => decide (0 ≤ w ∧ w < 18446744073709551616))) then "BAD contract | " ++ line else
-            verdict (decide (v.length = n.toNat) && v.all (canonical p)) (m.1 == v && m.2.isEmpty) (showL m.1) line
+            verdict (decide (v.length = n.toNat) && v.all (canonical p) && u1 == v) (m.1 == v && m.2.isEmpty) (showL m.1) line
           | _ => "BAD rm | " ++ line
         else
           match triples trI with
@@ -180,26 +244,35 @@ def randomLine (line : String) : String :=
             if !contractOk t then "BAD contract | " ++ line else
             if key == "rii" then
               match a with
-              | [_, _, u, e, how, b, k] =>
+              | [_, _, u, e, how, b, k, old] =>
                 let ub := u != 0
                 let eb := e != 0
                 let st : TrSt := ⟨t, true⟩
                 let bits : Nat := if how == 0 then b.toNat else bitsize b
                 if bits == 0 then "PRE" else
-                let start : Int × TrSt := if how == 0 then riiNext trGen ub eb 30 0 st else (0, st)
-                let m := riiSeq trGen ub eb bits k.toNat start.1 start.2
-                let specOk := decide (v.length = k.toNat) && v.all (fun x => if eb then exactOk ub bits x else ltOk ub (2 ^ bits) x)
-                verdict specOk (m.1 == v && m.2.ok && m.2.rest.isEmpty) (showL m.1) line
+                -- how 0: RandomIntegerIterator(D, seed); setBitsize(bits); then random(v) into destinations holding `old`
+                -- how 1: RandomIntegerIterator(D, seed, samplesize); then ++it
+                let s0 : RiiSt TrSt := if how == 0 then riiCtor trGen ub eb 30 st else riiCtor trGen ub eb bits st
+                let calls : List RiiCall :=
+                  if how == 0 then RiiCall.setBitsize bits :: List.replicate (k.toNat - 1) (RiiCall.random old)
+                  else List.replicate (k.toNat - 1) RiiCall.inc
+                let m := runCalls (riiStep trGen ub eb) calls s0
+                let outs : Option (List Int × TrSt) := m.map (fun r => ((if how == 0 then r.1 else s0.integer :: r.1), r.2.gen))
+                let specOk := decide (v.length = k.toNat) && v.all (fun x => if eb then exactOk ub bits x else ltOk ub (2 ^ bits) x) && u1 == v
+                match outs with
+                | some (l, g) => verdict specOk (l == v && g.ok && g.rest.isEmpty) (showL l) line
+                | none => verdict specOk false "NONE" line
               | _ => "BAD rii | " ++ line
             else
-              match v with
-              | [r] =>
+              match v, u1 with
+              | [r], [r2] =>
                 match intCase key a r t with
                 | none => "BAD key | " ++ line
                 | some (pre, specOk, m) =>
                   if !pre then "PRE" else
-                  verdict specOk (m == some r) (match m with | some x => hexInt x | none => "DIVERGED") line
-              | _ => "BAD result | " ++ line
-      | _, _ => "BAD result | " ++ line
+                  -- r2: the same call from the same generator state into a destination that held another value
+                  verdict (specOk && r2 == r) (m == some r) (match m with | some x => hexInt x | none => "DIVERGED") line
+              | _, _ => "BAD result | " ++ line
+      | _, _, _, _ => "BAD result | " ++ line
 
 end Driver.Random
